@@ -72,7 +72,12 @@ def expand_minimal_spaces(
         (node, successors) = stack.pop()
         if successors is None:
             # Only allow successor computation if size limit hasn't been exceeded.
-            if (size_limit is not None) and (len(sd) >= size_limit):
+            # (Nodes that are already expanded do not increase the size.)
+            if (
+                (size_limit is not None)
+                and (len(sd) >= size_limit)
+                and not sd.node_data(node)["expanded"]
+            ):
                 # Size limit reached.
                 return False
 
